@@ -133,7 +133,7 @@ def spec_apply_procedure_locations(chk):
 LOC_ALPHABET = ["a", "(", ")", " ", "\n", "\r", ";", "1"]
 
 
-def spec_token_locations(chk, N):
+def spec_token_locations(chk, N, LOC_ALPHABET=LOC_ALPHABET):
     """the location the lexer attaches to a token is the position right after the token's last character: lines counted from 1
     and advanced by LF, columns counted from 1 and restarted after LF - for every text of <= N characters over a small alphabet
     that contains comments and both line terminators"""
@@ -169,7 +169,7 @@ def spec_token_locations(chk, N):
         want = []
         pos = 0
         import re as _re
-        for m in _re.finditer(r"[a1]+|[()]", _re.sub(r";[^\n\r]*", lambda mm: " " * len(mm.group(0)), text)):
+        for m in _re.finditer(r'"[^"]*"|[a1]+|[()]', text) if '"' in LOC_ALPHABET else _re.finditer(r"[a1]+|[()]", _re.sub(r";[^\n\r]*", lambda mm: " " * len(mm.group(0)), text)):
             end = m.end()
             line = 1 + text[:end].count("\n")
             col = 1 + len(text[:end]) - (text[:end].rfind("\n") + 1)
@@ -262,3 +262,5 @@ def run(chk):
     chk.step("apply_procedure locations", spec_apply_procedure_locations, chk)
     chk.step("eval_ast location", spec_eval_ast_location, chk)
     chk.step("token locations", spec_token_locations, chk, 5 if chk.tier == "thorough" else 4)
+    # string literals may span lines: the tokens after them are still located by the text (alphabet without comments)
+    chk.step("token locations after string literals", spec_token_locations, chk, 6 if chk.tier == "thorough" else 5, ["a", '"', "\n", " "])
